@@ -312,6 +312,26 @@ def TS.phrase (p : P) (sk : Sk) (x : TS) : TS × R :=
   | (x, .error (.exception _)) => (x, .error (.plain .exc))
   | (x, .error _) => (x, .error ⟨[], true⟩)       -- fuel: no counterpart in C++ (it does not return)
 
+/-- a `phrase_parse` in the middle of a history: the saved positions stay, the stream moves on;
+    answers the result and the recorded calls (oldest first) -/
+def HState.phrase (h : HState) (p : P) (sk : Sk) : HState × R × List Ev :=
+  let o := TS.phrase p sk { s := h.s, log := [] }
+  ({ h with s := o.1.s }, o.2, o.1.log.reverse)
+
+/-- histories that interleave the three stream operations with whole parses -/
+inductive XOp where
+  | op (o : Op)
+  | parse (sk : Sk) (p : P)
+  deriving Repr, DecidableEq, Inhabited
+
+def xstep (h : HState) : XOp → HState
+  | .op o => (step h o).1
+  | .parse sk p => (h.phrase p sk).1
+
+def xrun (h : HState) : List XOp → HState
+  | [] => h
+  | o :: os => xrun (xstep h o) os
+
 /-- does the outcome say that the C++ call returns at all -/
 def Out.diverged (o : Out) : Bool :=
   match o.2 with
